@@ -128,6 +128,50 @@ def gen_mesh(rng, ndims, nlevels, bf, max_blocks=3, refine_p=0.5):
     return n0, levels
 
 
+def _segments(rng, start, stop):
+    """split [start, stop) (in blocks, length >= 2) into segments of 2 or 3 blocks"""
+    segs = []
+    pos = start
+    while stop - pos >= 2:
+        rem = stop - pos
+        if rem in (2, 3):
+            n = rem
+        elif rem == 4:
+            n = 2
+        else:
+            n = rng.choice([2, 3])
+        segs.append((pos, pos + n))
+        pos += n
+    return segs
+
+
+def gen_mesh_chunky(rng, ndims, nlevels, bf):
+    """Meshes without small boxes: every box edge is 2*bf or 3*bf cells and the
+    refined regions start at arbitrary multiples of bf - so the smallest box
+    edge does NOT divide every box corner (the '16 and 24' situation)."""
+    nb0 = [rng.choice([2, 3, 4, 5]) for _ in range(ndims)]
+    n0 = [b * bf for b in nb0]
+    region = [(0, b) for b in nb0]          # per axis [start, stop) in blocks of the level
+    levels = []
+    for lv in range(nlevels):
+        segs = [_segments(rng, a, b) for a, b in region]
+        boxes_b = _product(segs)
+        boxes = [(tuple(s[0] * bf for s in bx), tuple(s[1] * bf - 1 for s in bx)) for bx in boxes_b]
+        rng.shuffle(boxes)
+        levels.append(boxes)
+        if lv + 1 == nlevels:
+            break
+        covered = [(min(s[0] for s in sg), max(s[1] for s in sg)) for sg in segs]
+        nxt = []
+        for a, b in covered:
+            fa, fb = 2 * a, 2 * b          # the parent region in blocks of the finer level
+            length = rng.randint(2, min(fb - fa, 5))
+            start = rng.randint(fa, fb - length)
+            nxt.append((start, start + length))
+        region = nxt
+    return n0, levels
+
+
 # ---------------------------------------------------------------- payload
 
 def bits_to_f64(bits):
@@ -219,7 +263,7 @@ def gen_geometry(rng, ndims, stream):
 
 
 def gen_plotfile(rng, ndims=None, nlevels=None, payload=None, geo_stream=None,
-                 nfields=None, max_blocks=3, allow_repeat=False, layout=None, bf=None):
+                 nfields=None, max_blocks=3, allow_repeat=False, layout=None, bf=None, mesh='blocks'):
     pf = PF()
     pf.ndims = ndims or rng.choice([2, 3])
     nlevels = nlevels or rng.choice([1, 1, 2, 2, 3, 4])
@@ -229,7 +273,10 @@ def gen_plotfile(rng, ndims=None, nlevels=None, payload=None, geo_stream=None,
     pf.step = rng.choice([0, 7, 70100])
     geo_stream = geo_stream or rng.choice(['exact', 'decimal'])
     pf.geo_low, pf.dx0, geo_kind = gen_geometry(rng, pf.ndims, geo_stream)
-    pf.n0, mesh = gen_mesh(rng, pf.ndims, nlevels, pf.bf, max_blocks=max_blocks)
+    if mesh == 'chunky':
+        pf.n0, mesh = gen_mesh_chunky(rng, pf.ndims, nlevels, pf.bf)
+    else:
+        pf.n0, mesh = gen_mesh(rng, pf.ndims, nlevels, pf.bf, max_blocks=max_blocks)
     payload = payload or rng.choice(['ints', 'random', 'special'])
     base = 0
     layouts = []
